@@ -9,8 +9,18 @@ pub trait TreapItemSized {
     fn size(&self) -> usize;
 }
 
+// Every thread owns a generator. The first thread that creates a node continues the historical stream
+// (seed 42); each further thread gets a seed of its own, so that nodes created on different threads do not
+// carry identical priorities (merging such treaps would degenerate into a chain).
+static NEXT_STREAM: std::sync::atomic::AtomicU64 = std::sync::atomic::AtomicU64::new(0);
+
+fn stream_seed() -> u64 {
+    let k = NEXT_STREAM.fetch_add(1, std::sync::atomic::Ordering::Relaxed);
+    42u64.wrapping_add(k.wrapping_mul(0x9E37_79B9_7F4A_7C15))
+}
+
 thread_local! {
-    static RNG: std::cell::Cell<Rng> = std::cell::Cell::new(Rng::from_seed(42));
+    static RNG: std::cell::Cell<Rng> = std::cell::Cell::new(Rng::from_seed(stream_seed()));
 }
 
 type Priority = u32;
